@@ -1,4 +1,5 @@
 import IGVerif.Props.Ties
+import IGVerif.Proofs.TabRows
 /-! C19 — IG Core and IG Extended differ only in how nested statements are shown. -/
 namespace IGVerif.C19
 open IGVerif
@@ -8,5 +9,29 @@ open IGVerif
 theorem extended_switch_sites :
     Gen.tabularSwitchReads.filter (fun r => r.2.1 = "ProduceIGExtendedOutput") =
       [("generateStatementMatrix", "ProduceIGExtendedOutput", 4)] := by decide
+
+/-- **IG Core adds no rows**: with the IG Extended switch off, the table of a statement is
+    exactly its own atomic statements, whatever it nests and to whatever depth -/
+theorem core_adds_no_rows (o : Tab.Opts) (h : o.ext = false) (fuel : Nat) (fs : PStmt) (stmtId : Str)
+    (stmtAnn : Option Str) (stmtLinks : Str) :
+    Tab.stmtRows o (fuel + 1) fs stmtId stmtAnn stmtLinks = (Tab.ownRows o fs stmtId stmtAnn stmtLinks).1 :=
+  Tab.stmtRows_core o h fuel fs stmtId stmtAnn stmtLinks
+
+/-- in both modes the table begins with the statement's own atomic statements; IG Extended
+    appends the row groups of the nested statements after them -/
+theorem both_modes_begin_with_own_rows (o : Tab.Opts) (fuel : Nat) (fs : PStmt) (stmtId : Str) (stmtAnn : Option Str)
+    (stmtLinks : Str) :
+    ∃ rest, Tab.stmtRows o (fuel + 1) fs stmtId stmtAnn stmtLinks = (Tab.ownRows o fs stmtId stmtAnn stmtLinks).1 ++ rest :=
+  Tab.stmtRows_own_prefix o fuel fs stmtId stmtAnn stmtLinks
+
+/-- the number of top-level atomic statements does not depend on the mode (nor on any option) -/
+theorem own_rows_equally_many (o o' : Tab.Opts) (fs : PStmt) (stmtId : Str) (stmtAnn : Option Str) (stmtLinks : Str) :
+    (Tab.ownRows o fs stmtId stmtAnn stmtLinks).1.length = (Tab.ownRows o' fs stmtId stmtAnn stmtLinks).1.length := by
+  rw [Tab.ownRows_length, Tab.ownRows_length]
+
+/-- IG Core never hands out a nested-statement id -/
+theorem core_registers_nothing (o : Tab.Opts) (h : o.ext = false) (fs : PStmt) (stmtId : Str) (stmtAnn : Option Str)
+    (stmtLinks : Str) : (Tab.ownRows o fs stmtId stmtAnn stmtLinks).2 = [] :=
+  Tab.ownRows_core_registry o h fs stmtId stmtAnn stmtLinks
 
 end IGVerif.C19
